@@ -42,6 +42,22 @@ CLAIMED = {
          "Machine-checked proof of C14_handshake, C14_stream_faithful, C14_gated, C14_lag_subsequence (against the publication history, ring invariant by induction), C14_identity_roundtrip and C14_compat_iff; tied to the real session with real tokio broadcast channels: all 32 flag values x names (empty, 64, >64, multi-byte), all six signal kinds, interleavings with command writes cut at arbitrary offsets, bursts around the queue capacity, closed signal channel.",
          "tokio::sync::broadcast is modelled (capacity 16, Lagged moves the cursor to the oldest retained value) and exercised differentially through the session; a client that stops reading blocks only its own session task (tasks are independent), which is stated, not proved, about tokio.",
          "DESIGN.md section 4 C14"),
+ "C08": ("Lean 4 induction over histories of the VolvoD7E driver state (latest status, latest command as interpreted, its age) with the governor theorems of C07 + differential histories (all op sequences to depth 5/7, random depth 30) on the real driver with simulated ages",
+         "Machine-checked proof (C08_history, C08_same_meaning) that for every history of status frames, engine commands, other commands, cycles and waits every emitted frame is a valid speed-control frame equal to the governor's decision for the latest status and the latest command read the same way at acceptance and on every cycle, that a zero-speed command on a running engine yields the shutdown code on every cycle and that no start code is sent once the command is older than the timeout; tied to the real VolvoD7E + NetDriverContext by enumerated and random histories, EEC1 status frames decoded by the real try_recv.",
+         "Time is modelled in ms and simulated by rewriting the stored command's timestamp (no sleeping); ages within 150 ms of the 2000 ms deadline are not generated; handler durations are taken as 0. One genuine defect found and fixed (KNOWN_FINDINGS.txt).",
+         "DESIGN.md section 4 C08"),
+ "C12": ("Lean 4 theorems equating the model decoders with independently written reference decoders at integer/bit level for all payloads (EEC1 fields and state rule, encoder/inclinometer error words, HCU lock bit, signed slopes) + exhaustive differential sweeps of every 16-bit field through the real try_recv, rotations compared with an f64 reference",
+         "Machine-checked proof (C12_spec, C12_eec1_fields, C12_never_running_at_zero, C12_error_keeps_measurement, C12_inclino_signed, ...) for every 8-byte payload; tied to the code by exhaustive sweeps of inclinometer slopes, EEC1 rpm, encoder status words (thorough: all 65536 each), all 256 values of the demand/load/starter/status/lock bytes, four encoder addresses with boundary and sampled 32-bit positions.",
+         "Trigonometry and f32 rounding are outside the model: the harness compares the published Rotation3 with an independent f64 evaluation of -(p/1000 - offset) about the joint axis / of the Euler construction, tolerance scaled by the operand's f32 ulp; encoder positions above 100000 (100 rad) are counted but not asserted.",
+         "DESIGN.md section 4 C12"),
+ "C11": ("Lean 4 theorems over the parse guards of every driver kind: a frame touches a unit's state only if its source is the unit's address and it is not addressed elsewhere; requests are inert; distinct units never share a frame + differential sweep of 256 sources x destination classes x all inspected parameter groups on every driver kind incl. the shipped configuration's units",
+         "Machine-checked proof of C11_source_guard, C11_at_most_one, C11_requests_inert, C11_signal_names_unit for all frames and all driver kinds except the development-only simulator, for which the negation is proved with a witness (C11_simulator_witness) and recorded as a finding; tied to the real drivers by observing signals, rx_count and rx_last_message for every (source, destination class, PGN) combination.",
+         "Authority-level attribution (first driver producing objects wins, Request short-circuit) is covered with C10/C20 on the emulated bus. One genuine defect (TSC1 from any source) found and fixed.",
+         "DESIGN.md section 4 C11"),
+ "C06": ("Lean 4 theorems: normalisation of short frames (all DLC 0..8), totality of try_recv for every driver kind/address/frame, reception leaves the command side working + differential per-byte 0..255 sweeps and PGN x source x destination sweeps on every real driver under catch_unwind",
+         "Machine-checked proof of C06_normalise, C06_network_delivers_8, C06_driver_total, C06_hcu_keeps_working, C06_engine_keeps_working; tied to the code by sweeping every data byte 0..255 on the frames each driver decodes, all inspected parameter groups x source x destination classes x data patterns and random frames through the real try_recv of all eight driver kinds (DLC 0..8 through the real ControlNetwork is exercised by C17).",
+         "DLC > 8 cannot occur on classic CAN (excluded by the property). Two genuine defects found and fixed (vecraft status byte, simulator unwrap).",
+         "DESIGN.md section 4 C06"),
 }
 NOT_YET = "check not built yet in this round (planned: Lean model + correspondence, see DESIGN.md section 4)"
 
